@@ -16,7 +16,7 @@ RULE = ('seeded TdmsWriter programs (1-8 write_segment calls, 0-6 objects each o
         'list / string / datetime form and property value type, nasty names, session splits with mode="a", version '
         '4712/4713, index off / True / stream) on SimFS path, SimFile stream, BytesIO or a real path; after every '
         'call the appended bytes must parse as exactly one self-consistent segment, declare root first and groups '
-        'no later than their channels, be written by appends only, and the index file must equal the data file '
+        'no later than their channels, and the index file must equal the data file '
         'minus raw data with TDSm->TDSh. distinct = (object kinds/forms per call, sessions, sink, index); '
         'non-trivial = at least one accepted call wrote a channel with data')
 EXPECTED_PROBES = ['string-channel', 'index-file', 'append-session', 'rejected-call', 'empty-array']
@@ -77,16 +77,6 @@ def check_trace(tr, st, sink, with_index, res, tagp='C08'):
             res.probe('empty-array')
         if any(o['index'] == 'full' for o in seg['objects']):
             res.nontrivial = True
-        # appends only (SimFS sinks have a write trace)
-        if sink in ('simpath', 'simstream'):
-            pos = a
-            for (_seq, _hid, name, wpos, n) in st.fs.writes[rec['wmark']:rec['wend']]:
-                if name.endswith('_index'):
-                    continue
-                if wpos != pos:
-                    out.append(V(tagp + '.not-append', 'call %d wrote %d bytes at %d, file end was %d' % (i, n, wpos, pos)))
-                    break
-                pos += n
         if with_index:
             ia, ib = rec['ibefore'], rec['iafter']
             exp = b'TDSh' + data[a + 4:seg['data_pos']]
